@@ -131,6 +131,14 @@ Theorem C14_outbound_never_announces : outbound_announces = false.
 Proof. exact outbound_never_announces. Qed.
 Print Assumptions C14_outbound_never_announces.
 
+(* Blocking a peer (Service.blockPeer) does not touch the registry: a registered peer that is blocked
+   stays registered until its last connection closes, and then gets its one notification like any
+   other (C14_last_close applies unchanged).  Anchored on the source: blockPeer calls no registry
+   method (part of C14_wiring). *)
+Theorem C14_block_keeps_registry : forall evs p, run (evs ++ [BlockPeer p]) = run evs.
+Proof. exact block_keeps_everything. Qed.
+Print Assumptions C14_block_keeps_registry.
+
 (* The nil dereference in Disconnected is unreachable in well-formed histories ... *)
 Theorem C14_no_panic : forall evs, wf evs -> panicked (run evs) = false.
 Proof. exact no_panic. Qed.
